@@ -503,18 +503,39 @@ fn arb_congress_case(max_intervals: usize, max_groups: usize) -> impl Strategy<V
         }),
         prop::collection::vec(any::<u32>(), 1..16),
     )
-        .prop_map(|(target, intervals, words)| CongressCase {
-            target,
-            intervals,
-            words,
+        .prop_map(|(target, mut intervals, words)| {
+            // in a third of the cases the first group falls silent for 10+ intervals in the middle
+            // (longer than the sampler keeps an unobserved group) and then comes back
+            if words[0] % 3 == 0 && intervals.len() >= 14 {
+                let n = intervals.len();
+                for iv in intervals.iter_mut().take(n - 2).skip(2) {
+                    iv[0] = 0;
+                }
+            }
+            CongressCase {
+                target,
+                intervals,
+                words,
+            }
         })
 }
 
-struct GroupEntry(usize);
+/// group g; every third group is identified by TWO pairs, given in alternating order (the
+/// grouping must not depend on the order in which an entry lists its pairs)
+struct GroupEntry(usize, bool);
 impl Entry for GroupEntry {
     fn write<'a>(&'a self, _w: &mut impl metrique_writer_core::EntryWriter<'a>) {}
     fn sample_group(&self) -> impl Iterator<Item = (std::borrow::Cow<'static, str>, std::borrow::Cow<'static, str>)> {
-        [("op".into(), format!("g{}", self.0).into())].into_iter()
+        let op: (std::borrow::Cow<'static, str>, std::borrow::Cow<'static, str>) = ("op".into(), format!("g{}", self.0).into());
+        let az: (std::borrow::Cow<'static, str>, std::borrow::Cow<'static, str>) = ("az".into(), format!("z{}", self.0 % 2).into());
+        let v = if self.0 % 3 != 2 {
+            vec![op]
+        } else if self.1 {
+            vec![az, op]
+        } else {
+            vec![op, az]
+        };
+        v.into_iter()
     }
 }
 
@@ -535,15 +556,32 @@ fn check_congress(case: &CongressCase) -> CaseResult {
     let mut wi = 0usize;
     let mut prev_total: Option<u64> = None;
     let mut first_call = true;
+    let mut ever_seen: std::collections::BTreeSet<usize> = Default::default();
+    let mut evicted: std::collections::BTreeSet<usize> = Default::default();
+    let mut flip = false;
     for (ii, vols) in case.intervals.iter().enumerate() {
         // state at the start of the interval
         let groups = c.verif_groups();
         let rate_of = |g: usize| -> Option<f32> {
             groups
                 .iter()
-                .find(|(k, ..)| k.len() == 1 && k[0].1 == format!("g{g}"))
+                .find(|(k, ..)| k.iter().any(|p| p.0 == "op" && p.1 == format!("g{g}")))
                 .map(|x| x.2)
         };
+        // one group per distinct identity: a group listed twice (e.g. once per pair order) would
+        // have its volume split over two rate computations
+        for g in 0..vols.len() {
+            let n = groups.iter().filter(|(k, ..)| k.iter().any(|p| p.0 == "op" && p.1 == format!("g{g}"))).count();
+            vensure!(
+                n <= 1,
+                "congress:one-group-tracked-as-several",
+                "interval {ii}: group g{g} is tracked {n} times: {groups:?}"
+            );
+            if n == 0 && ever_seen.contains(&g) {
+                classes.push("group-evicted-after-silence");
+                evicted.insert(g);
+            }
+        }
         // invariants of the rates computed at the last interval end
         if let Some(pt) = prev_total {
             let mut budget = 0f64;
@@ -615,7 +653,15 @@ fn check_congress(case: &CongressCase) -> CaseResult {
                 rng.word.store(w as u64, Ordering::Relaxed);
                 let d0 = rng.draws.load(Ordering::Relaxed);
                 let n0 = if individually { calls.lock().unwrap().len() } else { 0 };
-                let r = no_panic("congress-format", || c.format(&GroupEntry(g), &mut io::sink()))?;
+                flip = !flip;
+                if evicted.remove(&g) {
+                    classes.push("group-came-back-after-eviction");
+                }
+                ever_seen.insert(g);
+                if g % 3 == 2 {
+                    classes.push("two-pair-group-in-both-orders");
+                }
+                let r = no_panic("congress-format", || c.format(&GroupEntry(g, flip), &mut io::sink()))?;
                 vensure!(r.is_ok(), "sample:format-error", "{r:?}");
                 if first_call {
                     first_call = false;
@@ -691,7 +737,7 @@ fn congress_real_clock(ctx: &mut Ctx) {
             for (g, vol) in [(0usize, 400u32), (1, 60), (2, 2)] {
                 for _ in 0..vol {
                     let n0 = calls.lock().unwrap().len();
-                    let _ = c.format(&GroupEntry(g), &mut io::sink());
+                    let _ = c.format(&GroupEntry(g, false), &mut io::sink());
                     let l = calls.lock().unwrap();
                     if l.len() > n0 {
                         if let Some(b) = l[l.len() - 1] {
@@ -800,7 +846,7 @@ pub fn run(ctx: &mut Ctx) {
             if q { 3_000 } else { 60_000 },
         )
         .threads(threads)
-        .mandatory(&["under-target-interval", "over-target-interval", "emitted", "dropped"])
+        .mandatory(&["under-target-interval", "over-target-interval", "emitted", "dropped", "group-evicted-after-silence", "group-came-back-after-eviction", "two-pair-group-in-both-orders"])
         .shrink_iters(300),
         || arb_congress_case(40, 12),
         check_congress,
